@@ -297,6 +297,17 @@ func c16Programs(quick bool) []c16Case {
 			add("grammar-args", "\n  "+l+p+"\n\n", []string{"a1", "a 2", "-x"}, "in1\n")
 		}
 	}
+	/* (C') long leading comment blocks (a licence text, a manual): 100, 127,
+	128, 129, 203 and 600 lines, kept in front, the program after them
+	intact and its line numbers with it. */
+	for _, n := range []int{100, 127, 128, 129, 203, 600} {
+		var lead strings.Builder
+		lead.WriteString("#!/usr/bin/perl\n")
+		for i := 1; i < n; i++ {
+			fmt.Fprintf(&lead, "# header line %d of %d\n", i+1, n)
+		}
+		add("long-header", lead.String()+"print \"line \", __LINE__, \" @ARGV\\n\";\nprint while <STDIN>;\nexit 7;\n", []string{"a", "b c"}, "in\n")
+	}
 	/* (D) argument vectors. */
 	for _, av := range [][]string{nil, {"x"}, {"-e"}, {"--"}, {"a b"}, {"'"}, {"$(x)"}, {"a", "b", "c"}, {""}, {"-e", "print 1"}, {"\\"}, {"*"}} {
 		add("argv", "print scalar(@ARGV), \":\", join(\"|\", @ARGV), \"\\n\";\n", av, "")
